@@ -23,7 +23,6 @@ from __future__ import annotations
 import copy
 import json
 import os
-import pathlib
 import shutil
 import traceback
 from unittest import mock
@@ -35,7 +34,7 @@ from vlib import vloop
 PROPERTY = 'C15'
 LEVEL = 'fault_enumeration'
 RULE = (
-    'histories of update(ns,peer,keys)/delete(ns,peer) present+absent/delete_all(ns)/get/get_all/'
+    'histories of update(ns,peer,keys)/delete(ns,peer) absent or aimed at a stored peer/delete_all(ns)/get/get_all/'
     'get_resolving_keys/reopen(ns)/litter(stale .tmp) over 1..3 namespace handles (explicit names and the '
     'default namespace = JsonKeyStore(None, file)) sharing one file, 1..4 peers, initial file absent / {} / in a '
     'missing (nested) directory / pre-seeded with 1-2 foreign namespaces; PairingKeys = any subset of the 6 key '
@@ -998,10 +997,7 @@ def run(ctx) -> None:
             history_strategy(min_ops, max_ops, profile),
             max_examples=ctx.n(quick, thorough),
         )
-    if ctx.labels.get('case_failed', 0):
-        # histories are cut at their first violation, so class frequencies say nothing about the generator
-        ctx.notes.append('class floors not evaluated: some histories were cut short by a violation')
-        return
+    # (the runner reports instead of failing a floor when violations or the tier budget cut cases short)
     ctx.floor('multi_namespace_file', 10)
     ctx.floor('multi_namespace_nonempty', 3)
     ctx.floor('reopen', 10)
